@@ -63,7 +63,8 @@ class Ref:
         return getattr(self, "_" + spec["k"])(spec, o)
 
     def _const(self, s, o):
-        return copy.deepcopy(s["v"])
+        v = copy.deepcopy(s["v"])
+        return tuple(v) if s.get("as") == "tuple" else v
 
     def _opt(self, s, o):
         raw = U.lookup(s["key"], o)
